@@ -103,6 +103,9 @@ class AddInterp:
         self.value = [p for p in fn.params if p != 'self'][0]
         self.upd_names = {'_hasher_update'} | ({upd.name} if upd is not None else set())
         self.derived = {}      # local name -> text of the expression it was computed from
+        self.value_aliases = set()
+        self.tainted_attrs = set()
+        self.local_exprs = {}  # local name -> expression (conditions bound to a name, e.g. the result of an expanded helper)
 
     def cond(self, e, st):
         if isinstance(e, ast.UnaryOp) and isinstance(e.op, ast.Not):
@@ -114,6 +117,12 @@ class AddInterp:
             return st.flag
         if isinstance(e, ast.Constant) and isinstance(e.value, bool):
             return e.value
+        if isinstance(e, ast.Name) and e.id in self.local_exprs:
+            return self.cond(self.local_exprs[e.id], st)
+        if isinstance(e, ast.Call) and isinstance(e.func, ast.Name) and e.func.id == 'isinstance' and e.args and isinstance(e.args[0], ast.Name) and (e.args[0].id == self.value or e.args[0].id in self.derived or e.args[0].id in self.value_aliases):
+            return 'both'        # a test of the type of the value: does not depend on the state of the sketch
+        if isinstance(e, ast.Call) and isinstance(e.func, ast.Name) and e.func.id == 'bool' and len(e.args) == 1:
+            return self.cond(e.args[0], st)
         if isinstance(e, ast.Compare) and len(e.ops) == 1:
             l, op, r = e.left, e.ops[0], e.comparators[0]
             if isinstance(op, (ast.In, ast.NotIn)) and isinstance(l, ast.Name) and (l.id == self.value or l.id in self.derived) and _is_self_attr(r, 'warmup_set'):
@@ -178,6 +187,15 @@ class AddInterp:
             return
         if isinstance(s, ast.If):
             c = self.cond(s.test, st)
+            if c == 'both':
+                import copy as _copy
+                a, b = _copy.deepcopy(st), _copy.deepcopy(st)
+                self.block(s.body, a)
+                self.block(s.orelse, b)
+                if (a.effects, a.flag, a.size, a.member, a.returned) != (b.effects, b.flag, b.size, b.member, b.returned):
+                    raise Inconclusive(f'the type of the value decides what add() does: {ast.unparse(s.test)}')
+                st.effects, st.flag, st.size, st.member, st.returned = a.effects, a.flag, a.size, a.member, a.returned
+                return
             if isinstance(c, tuple):
                 st.effects.append(('split-boundary', c[1], ast.unparse(s.test)))
                 c = True if st.size == 'lt' else False
@@ -207,6 +225,12 @@ class AddInterp:
                 st.effects.append(('clear_set',))
                 st.member, st.size = False, 'lt'
                 return
+            # feeding the value into an attribute object (self.hasher.update(bytes(value))): what is read from it afterwards is derived from the value
+            if isinstance(f, ast.Attribute) and _is_self_attr(f.value) and f.value.attr not in ('warmup_set', 'M'):
+                names = {x.id for a in c.args for x in ast.walk(a) if isinstance(x, ast.Name)}
+                if names & ({self.value} | self.value_aliases | set(self.derived)):
+                    self.tainted_attrs.add(f.value.attr)
+                    return
             raise Inconclusive(f'unrecognised call in add(): {ast.unparse(c)}')
         if isinstance(s, ast.Assign) and len(s.targets) == 1 and _is_self_attr(s.targets[0]):
             attr = s.targets[0].attr
@@ -224,6 +248,11 @@ class AddInterp:
                     st.effects.append(('clear_set',))
                     st.member, st.size = False, 'lt'
                     return
+            if attr not in ('hll_flag', 'M', 'warmup_set', 'warmup_size', 'm', 'p', 'width'):
+                names = {x.id for x in ast.walk(s.value) if isinstance(x, ast.Name)}
+                if names & ({self.value} | self.value_aliases | set(self.derived)):
+                    self.tainted_attrs.add(attr)
+                return      # scratch attribute (e.g. the hasher object)
             raise Inconclusive(f'unrecognised assignment in add(): {ast.unparse(s)}')
         if isinstance(s, ast.For) and _is_self_attr(s.iter, 'warmup_set') and isinstance(s.target, ast.Name):
             from ..match import is_noise_stmt
@@ -239,8 +268,15 @@ class AddInterp:
                 return      # a loop over the warm-up set that transfers nothing: the missing transfer is reported by the obligations
             raise Inconclusive(f'unrecognised loop over the warm-up set in add(): {ast.unparse(s)[:80]}')
         if isinstance(s, ast.Assign) and len(s.targets) == 1 and isinstance(s.targets[0], ast.Name) and s.targets[0].id != self.value:
-            # a local computed from the value (e.g. a digest)
-            self.derived[s.targets[0].id] = ast.unparse(s.value)
+            # a local computed from the value (e.g. a digest), or a condition bound to a name
+            names = {x.id for x in ast.walk(s.value) if isinstance(x, ast.Name)}
+            if isinstance(s.value, ast.Name) and (s.value.id == self.value or s.value.id in self.value_aliases):
+                self.value_aliases.add(s.targets[0].id)
+                return
+            attrs = {x.attr for x in ast.walk(s.value) if _is_self_attr(x)}
+            if self.value in names or names & set(self.derived) or names & self.value_aliases or attrs & self.tainted_attrs:
+                self.derived[s.targets[0].id] = ast.unparse(s.value)
+            self.local_exprs[s.targets[0].id] = s.value
             return
         raise Inconclusive(f'unrecognised statement in add(): {ast.unparse(s)[:80]}')
 
@@ -312,7 +348,8 @@ def register_update(chk, upd, consts):
     ctor = calls(upd, dotted=('xxhash.xxh32', 'xxhash.xxh64', 'xxhash.xxh3_64', 'xxhash.xxh128', 'xxhash.xxh3_128'))
     resets = calls(upd, attr='reset')
     updates = calls(upd, attr='update')
-    fresh = bool(ctor or resets) and bool(updates) and min(c.lineno for c in (ctor + resets)) <= min(c.lineno for c in updates)
+    ctor_data = [c for c in ctor if c.args]          # xxhash.xxh32(<bytes>, seed=...): a fresh hasher over exactly this input
+    fresh = (bool(ctor or resets) and bool(updates) and min(c.lineno for c in (ctor + resets)) <= min(c.lineno for c in updates)) or (bool(ctor_data) and not updates)
     if not ctor and not resets:
         # hashing happens elsewhere (one-shot digest helper): every digest call must be a one-shot function of its argument
         oneshot = [c for f in m.funcs.values() if f.cls is upd.cls for c in calls(f) if (m.dotted(c.func) or '').startswith('xxhash.') and (m.dotted(c.func) or '').endswith('digest')]
@@ -368,9 +405,17 @@ def register_update(chk, upd, consts):
     chk.expect(val_ok, 'C14.3d', 'R15', upd.site(st), ast.unparse(st.value), 'register := max(register, width - bit_length(x >> p)): monotone, order independent',
                f'the register update must be max(old, width - bit_length(x >> p)) at the same bucket; found {show(val)[:160]}')
     # value is converted to bytes (str encoded) before hashing; every path updates the hasher exactly with the value
-    for u in updates:
+    from ..match import local_aliases
+    vnames = {value} | local_aliases(upd, {value})
+    # names computed from the value only (value = value.encode(...), v2 = bytes(value)) carry the value as well
+    for n in own_nodes(upd.node):
+        if isinstance(n, ast.Assign) and len(n.targets) == 1 and isinstance(n.targets[0], ast.Name):
+            used = {x.id for x in ast.walk(n.value) if isinstance(x, ast.Name)} - {'bytes', 'str', 'repr', 'isinstance'}
+            if used and used <= vnames:
+                vnames.add(n.targets[0].id)
+    for u in updates + ctor_data:
         a = u.args[0] if u.args else None
-        ok = a is not None and value in {n.id for n in ast.walk(a) if isinstance(n, ast.Name)}
+        ok = a is not None and bool(vnames & {n.id for n in ast.walk(a) if isinstance(n, ast.Name)})
         chk.expect(ok, 'C14.3e', 'origin', upd.site(u), ast.unparse(u), 'the hashed bytes are those of the value', 'the hasher is not fed with the value passed in')
 
 
@@ -383,34 +428,61 @@ def estimator(chk, ln, consts):
     cores = [E(f'self.m * numpy.log(self.m / {z})') for z in zero_forms] + [E(f'self.m * numpy.log(numpy.divide(self.m, {z}))') for z in zero_forms] + \
             [E(f'self.m * math.log(self.m / {z})') for z in zero_forms] + [E(f'-self.m * numpy.log({z} / self.m)') for z in zero_forms]
     exact = E('len(self.warmup_set)')
+    # path evaluation of __len__, forking on the flag (and on the saturation test): what is returned in each phase
+    from ..match import run_paths
+    paths = run_paths(ln, None, None, max_forks=4)
+    if paths is None:
+        chk.unsure('C14.4a', 'R15', ln.site(), '__len__', 'too many undecidable tests in __len__')
+        return
     seen_exact = seen_lc = False
-    for r in rets:
-        t = term_of(ln, r.value)
-        if t == exact:
-            seen_exact = True
-            # must be on the not-converted side
+    problems = []
+    m_is_2p = consts.get('m') is not None and consts.get('p') is not None and consts.get('m') == 2 ** consts.get('p')
+    for assume, res in paths:
+        if res.unknown is not None or res.returned is None:
+            chk.unsure('C14.4a', 'R15', ln.site(res.unknown) if res.unknown is not None else ln.site(), '__len__', 'a statement outside the path vocabulary decides what __len__ returns')
+            continue
+        flag = None
+        for t_ast, v in res.assumed:
+            tt = term_of(ln, t_ast, inline=False)
+            if tt == E('self.hll_flag'):
+                flag = v
+            elif tt in (E('not self.hll_flag'), E('self.hll_flag == False'), E('self.hll_flag is False')):
+                flag = not v
+            elif tt in (E('self.hll_flag == True'), E('self.hll_flag is True')):
+                flag = v
+        t = term_of(ln, res.returned, inline=False)
+        site = ln.site(res.returned) if hasattr(res.returned, 'lineno') else ln.site()
+        shown = ast.unparse(res.returned)[:140]
+        if flag is None:
+            chk.unsure('C14.4a', 'R15', site, shown, 'the phase flag is not tested on this path of __len__')
+            continue
+        if not flag:
+            if t == exact:
+                seen_exact = True
+            else:
+                problems.append((site, shown, '__len__ must return len(warmup_set) exactly when hll_flag is False and the linear-counting estimate otherwise'))
             continue
         if any(c in list(walk_term(t)) for c in cores):
             seen_lc = True
-            # outer wrappers: int / ceil / round / floor and an offset of magnitude <= 1
             ok = _only_wrappers(t, cores)
-            chk.expect(ok, 'C14.4b', 'R15', ln.site(r), ast.unparse(r), 'linear counting m*ln(m/V), rounded', f'the estimate must be m*ln(m/#empty registers) up to rounding; found {show(t)[:160]}')
+            chk.expect(ok, 'C14.4b', 'R15', site, shown, 'linear counting m*ln(m/V), rounded', f'the estimate must be m*ln(m/#empty registers) up to rounding; found {show(t)[:160]}')
             continue
-        if t[0] in ('num', '**', '<<') or (t[0] == 'call' and t[1] == ('name', 'int')):
-            continue   # saturation fallback (all registers touched)
-        chk.bad('C14.4b', 'R15', ln.site(r), ast.unparse(r), f'__len__ returns something that is neither len(warm-up set) nor the linear-counting estimate: {show(t)[:120]}')
-    # the top-level branch selects on the flag
-    first = next((s for s in ln.node.body if isinstance(s, ast.If)), None)
-    flag_ok = first is not None and term_of(ln, first.test) in (E('self.hll_flag'), E('not self.hll_flag'))
-    side_ok = False
-    if flag_ok:
-        pos = term_of(ln, first.test) == E('self.hll_flag')
-        exact_side = first.orelse if pos else first.body
-        lc_side = first.body if pos else first.orelse
-        side_ok = any(isinstance(x, ast.Return) and term_of(ln, x.value) == exact for s in exact_side for x in ast.walk(s)) and \
-            any(isinstance(x, ast.Return) and any(c in list(walk_term(term_of(ln, x.value))) for c in cores) for s in lc_side for x in ast.walk(s))
-    chk.expect(seen_exact and seen_lc and flag_ok and side_ok, 'C14.4a', 'R15', ln.site(), 'if self.hll_flag: <linear counting> else: len(self.warmup_set)',
-               'exact size while not converted, estimator afterwards', '__len__ must return len(warmup_set) exactly when hll_flag is False and the linear-counting estimate otherwise')
+        saturation = t[0] in ('num', '**', '<<') or (t[0] == 'call' and t[1] == ('name', 'int')) or (t == E('self.m') and m_is_2p)
+        # the saturation fallback is only reachable through a test of the estimate against infinity
+        if saturation and any('inf' in ast.unparse(x).lower() for x, _ in res.assumed):
+            continue
+        other_log = [x for x in walk_term(t) if isinstance(x, tuple) and x[:1] == ('call',) and x[1][0] == 'lib' and x[1][1] in ('numpy.log2', 'numpy.log10', 'numpy.log1p', 'math.log2', 'math.log10', 'math.log1p')]
+        if other_log:
+            chk.bad('C14.4b', 'R15', site, shown, f'the linear-counting estimate is m*ln(m/#empty registers) with the natural logarithm; found {show(other_log[0][1])}')
+        elif t == exact:
+            problems.append((site, shown, '__len__ must return len(warmup_set) exactly when hll_flag is False and the linear-counting estimate otherwise'))
+        else:
+            chk.bad('C14.4b', 'R15', site, shown, f'__len__ returns something that is neither len(warm-up set) nor the linear-counting estimate: {show(t)[:120]}', soft=True)
+    for site, shown, why in problems[:1]:
+        chk.bad('C14.4a', 'R15', site, shown, why)
+    if not problems:
+        chk.expect(seen_exact and seen_lc, 'C14.4a', 'R15', ln.site(), 'if self.hll_flag: <linear counting> else: len(self.warmup_set)',
+                   'exact size while not converted, estimator afterwards', '__len__ must return len(warmup_set) exactly when hll_flag is False and the linear-counting estimate otherwise', soft=True)
 
 
 def _only_wrappers(t, cores):
